@@ -197,6 +197,10 @@ fn header_sets() -> Vec<Option<Headers>> {
     h.insert("Comment".to_string(), vec!["first".to_string(), "second: with colon".to_string()]);
     v.push(Some(h.clone()));
     h.insert("Charset".to_string(), vec!["UTF-8 \u{e9}\u{4e16}".to_string()]);
+    v.push(Some(h.clone()));
+    // empty values are values too
+    h.insert("Comment".to_string(), vec!["".to_string(), "after an empty one".to_string()]);
+    h.insert("MessageID".to_string(), vec!["".to_string()]);
     v.push(Some(h));
     v
 }
@@ -236,8 +240,15 @@ fn dearmor(text: &[u8], check: bool, sched: &[usize], rd: usize) -> Out<DearmorO
                 err = Some(e.to_string());
             }
         } else {
-            let mut b = vec![0u8; rd];
+            let mut b = vec![0u8; if rd == 9002 { 10 } else { rd }];
             loop {
+                // (9002: every read is preceded by a read into an empty buffer, which must change nothing)
+                if rd == 9002 {
+                    if let Err(e) = d.read(&mut b[..0]) {
+                        err = Some(e.to_string());
+                        break;
+                    }
+                }
                 match d.read(&mut b) {
                     Ok(0) => break,
                     Ok(n) => data.extend_from_slice(&b[..n]),
@@ -394,7 +405,7 @@ pub fn run(cases_path: &str, out_path: &str, tier: &str, seed: u64) {
                         if si == 1 && n > 600 && !thorough {
                             continue;
                         }
-                        for rd in [0usize, 1, 7, 4096] {
+                        for rd in [0usize, 1, 7, 4096, 9002] {
                             if rd == 1 && (n > 300 || si > 1) {
                                 continue;
                             }
